@@ -5,7 +5,7 @@ from harness.core import cbool, clist, copt, cq, cz, czlist
 
 ID = "C03"
 MODEL_TARGETS = ["C03/Cases.vo"]
-PROOF_TARGETS = ["C11/Gen.vo", "C11/Bridge.vo", "C20/Gen.vo", "C20/Bridge.vo", "C03/Site.vo",
+PROOF_TARGETS = ["C11/Gen.vo", "C11/Bridge.vo", "C03/Site.vo",
                  "C03/Bridge.vo", "C03/Proofs.vo", "C03/Refuted.vo"]
 OBLIGATION_FILES = ["C03/Bridge.v", "C03/Refuted.v"]
 PROPS_FILE = "C03/Props.v"
@@ -41,7 +41,7 @@ MODELLED = [
     "EVERY pd.Series(..., index=) / <x>.index = / adapter .loc[] site in the 15 scope files, each "
     "of which must be <fh>.to_absolute(self.cutoff)); translator/naive_c11.py -> C11/Gen.v "
     "(horizon arithmetic, NaiveForecaster.fit / _predict_last_window, polynomial time axis); "
-    "translator/validate.py -> C20/Gen.v (_set_fh of the optional-horizon mixin)",
+    "_set_fh of the optional-horizon mixin (whole body, in Site.v)",
     "minimum claim, no deep embedding: the Coq model computes the prediction INDEX and the CUTOFF "
     "of any program (theorems about those for all programs), and VALUES only for the "
     "NaiveForecaster / PolynomialTrendForecaster leaves (C11 kernels, incl. updates with and "
@@ -64,11 +64,11 @@ LEAVES = ["naive", "poly", "es", "theta", "ets", "reduce"]
 
 def translate(repo):
     """Regenerated on every run: C03/Site.v (cutoff bookkeeping + every prediction-index site),
-    C11/Gen.v (horizon arithmetic, NaiveForecaster.fit / _predict_last_window, polynomial time axis)
-    and C20/Gen.v (_set_fh); all fail closed."""
-    from translator import naive_c11, sites_c03, validate
+    and C11/Gen.v (horizon arithmetic, NaiveForecaster.fit / _predict_last_window, polynomial time
+    axis); Site.v also holds _set_fh of the optional-horizon mixin, translated with C03's own
+    evaluator (no dependency on another property's translator); all fail closed."""
+    from translator import naive_c11, sites_c03
     files = dict(naive_c11.translate(repo))
-    files.update(validate.translate(repo))
     files.update(sites_c03.translate(repo))
     return files
 
